@@ -40,6 +40,34 @@ def gen_ops(r, n):
     return ops
 
 
+PREFIX_FAMILIES = [['v', 'v1', 'v10', 'v100'], ['sdk', 'sdk2', 'sd', 'sdk_model'], ['a', 'ab', 'abc', 'b'], ['ns', 'ns1', 'ns12', 'n']]
+
+
+def gen_ops_prefix(r, n):
+    """Namespaces and names that are proper string prefixes of one another (v1 / v10, T / T1): a resolver that works on the joined
+    dotted string instead of the segment list confuses them; single-character alphabets cannot show that."""
+    segs = r.choice(PREFIX_FAMILIES)
+    names = r.choice([['T', 'T1'], ['cfg', 'cfg2'], ['T', 'U']])
+    ops, nid = [], 0
+    def some_ns():
+        x = r.random()
+        k = 1 if x < 0.5 else 0 if x < 0.65 else 2 if x < 0.9 else 3
+        return [r.choice(segs) for _ in range(k)]
+    for _ in range(n):
+        ns = some_ns()
+        if r.random() < 0.45:
+            ops.append(['reg', ns, r.choice(names), nid]); nid += 1
+        else:
+            x = r.random()
+            name = r.choice(names)
+            if x < 0.2:
+                name = '.'.join([r.choice(segs)] + [name])
+            elif x < 0.3:
+                name = '.' + '.'.join([r.choice(segs) for _ in range(r.randint(0, 2))] + [name])
+            ops.append(['res', ns, name])
+    return ops
+
+
 def c_ops(ops, obs):
     items = []
     for op, o in zip(ops, obs):
@@ -94,7 +122,7 @@ def oracle_ops(ops, obs):
 def unit_corr(ctx):
     r = random.Random(ctx.rng.random())
     n = ctx.n(400, 4000)
-    cases = [gen_ops(r, r.randint(3, 24)) for _ in range(n)]
+    cases = [gen_ops(r, r.randint(3, 24)) if i % 5 < 3 else gen_ops_prefix(r, r.randint(3, 24)) for i in range(n)]
     ok, res = run_impl('resolver_ops', {'cases': cases})
     if not ok:
         ctx.broken.append({'kind': 'harness', 'name': 'resolver_ops driver', 'detail': res})
@@ -123,7 +151,8 @@ def unit_corr(ctx):
             'unknown': sum(o.count('none') for o in obs),
             'bound': sum(1 for o in obs for x in o if isinstance(x, list) and x[0] == 'some')}
     ctx.add_corr('K-resolver-unit', n, nontriv, mism, [{'ops': cases[0], 'impl': obs[0]}], dist,
-                 'random interleavings of register/resolve on the real Resolver over a 5-symbol alphabet; '
+                 'random interleavings of register/resolve on the real Resolver over a 5-symbol alphabet (3 of 5 cases) and over namespace / type names that are '
+                 'proper string prefixes of one another, v1 / v10 / v100, T / T1 (2 of 5 cases); '
                  'non-trivial = at least two resolve operations')
 
 
